@@ -43,7 +43,11 @@ class DictProxy(dict):
                 "DictProxy requires a parent DictField.{key,value}_field attribute"
             )
 
-        if isinstance(iterable, DictProxy) and iterable.dict_field is dict_field:
+        if (
+            isinstance(iterable, DictProxy)
+            and iterable.dict_field is dict_field
+            and iterable.cfg is cfg
+        ):
             super().__init__(iterable)
         elif iterable:
             super().__init__(
